@@ -343,3 +343,25 @@ Proof.
   assert (N.of_nat n * 1 <= N.of_nat n * cost (f_rep f)) by (apply N.mul_le_mono_l; auto).
   lia.
 Qed.
+
+(* the literal statement "every span lies inside the input" is false for the model: the end-of-input
+   location of a text without final newline lies behind the appended newline *)
+Lemma span_inside_input_refuted_l :
+  exists i l, loc_in (parse_buf i) l /\ ends_with_nl i = false /\
+              span_of_loc l = (blen i + 1, 0) /\ ~ span_end (span_of_loc l) <= blen i.
+Proof.
+  exists [109], (mkLoc 2 2). unfold loc_in, blen. simpl. repeat split; try discriminate.
+  intro H. apply H. reflexivity.
+Qed.
+
+(* outside that class (input ends in a newline, or the location does not touch the appended byte)
+   the span lies inside the input *)
+Lemma span_inside_input_outside_known_class_l :
+  forall i l, loc_in (parse_buf i) l ->
+    (ends_with_nl i = true \/ (l_start l <= blen i /\ l_end l <= blen i)) ->
+    span_end (span_of_loc l) <= blen i.
+Proof.
+  intros i l H [E|[A B]].
+  - apply span_in_input_l; auto.
+  - rewrite span_end_of_loc. lia.
+Qed.
